@@ -1,5 +1,6 @@
 """C11 - the disk cache is reused exactly and cleared exactly when asked."""
 import json
+import common
 import os
 import random
 import shutil
@@ -94,6 +95,7 @@ def gen_history(rng, n, ndirs, length):
 
 def run_history(n, ndirs, ops, async_kill_rng=None):
     """execute on the real code; returns outputs, per-example upstream call counts, directory existence"""
+    common.gc_point()
     root = tempfile.mkdtemp(prefix='verif_c11_')
     try:
         paths = [os.path.join(root, f'd{d}') for d in range(ndirs)]
